@@ -1279,8 +1279,212 @@ impl<'a, 'b> Gen<'a, 'b> {
     }
 
     /// statements and expressions of this part
+    /// constant_primary forms that plain constant expressions of svgen leave out: concatenations and casts
+    pub fn const_primary_more(&mut self) {
+        match self.t.below(4) {
+            0 => {
+                self.tag("constant-concatenation");
+                self.sym("{");
+                let n = 1 + self.t.below(3);
+                for i in 0..n {
+                    if i > 0 {
+                        self.sym(",");
+                    }
+                    let c = *self.t.pick(&["4'd1", "2'b0", "8'hA5", "1'b1", "3'o7"]);
+                    self.num(c);
+                }
+                self.sym("}");
+                if self.t.chance(1, 4) {
+                    self.sym("[");
+                    self.small_const();
+                    if self.t.flip() {
+                        self.sym(":");
+                        self.small_const();
+                    }
+                    self.sym("]");
+                }
+            }
+            1 => {
+                self.tag("constant-multiple-concatenation");
+                self.sym("{");
+                self.small_const();
+                self.sym("{");
+                let c = *self.t.pick(&["1'b1", "2'b01", "4'hF"]);
+                self.num(c);
+                self.sym("}");
+                self.sym("}");
+            }
+            _ => {
+                // constant_cast ::= casting_type ' ( constant_expression )
+                self.tag("constant-cast");
+                match self.t.below(5) {
+                    0 => {
+                        let ty = *self.t.pick(&["int", "byte", "integer", "shortint", "longint", "real", "string"]);
+                        self.kw(ty);
+                    }
+                    1 => {
+                        let ty = *self.t.pick(&["signed", "unsigned"]);
+                        self.kw(ty);
+                    }
+                    2 => {
+                        let c = *self.t.pick(&["4", "8", "16"]);
+                        self.num(c);
+                    }
+                    3 => {
+                        self.kw("const");
+                    }
+                    _ => {
+                        self.id("cast_t");
+                    }
+                }
+                self.sym("'");
+                self.sym("(");
+                self.const_expr(1);
+                self.sym(")");
+            }
+        }
+    }
+
+    /// parameter / localparam as a block item declaration (only where declarations may stand: called by block_body)
+    pub fn block_parameter_declaration(&mut self) {
+        self.tag("block-parameter");
+        let local = self.t.flip();
+        self.kw(if local { "localparam" } else { "parameter" });
+        if self.t.chance(1, 4) {
+            self.kw("type");
+            let name = self.fresh();
+            let tk = self.id(&name);
+            self.expect(tk, "TypeIdentifier", F_PARAM, &["TypeAssignment"]);
+            self.sym("=");
+            let ty = *self.t.pick(&["int", "logic", "byte", "real"]);
+            self.kw(ty);
+        } else {
+            if self.t.chance(1, 3) {
+                let ty = *self.t.pick(&["int", "integer", "bit", "logic"]);
+                self.kw(ty);
+            }
+            let name = self.fresh();
+            let tk = self.id(&name);
+            self.expect(tk, "ParameterIdentifier", F_PARAM, &["ParamAssignment"]);
+            self.sym("=");
+            if self.t.chance(1, 3) {
+                self.const_primary_more();
+            } else {
+                self.const_expr(1);
+            }
+        }
+        self.sym(";");
+    }
+
     pub fn stmt_more2(&mut self) {
-        match self.t.below(9) {
+        match self.t.below(12) {
+            9 => {
+                // assignment_pattern_variable_lvalue
+                self.tag("pattern-lvalue");
+                self.sym("'{");
+                self.lvalue_simple();
+                self.sym(",");
+                if self.t.chance(1, 3) {
+                    self.sym("'{");
+                    self.lvalue_simple();
+                    self.sym(",");
+                    self.lvalue_simple();
+                    self.sym("}");
+                } else {
+                    self.lvalue_simple();
+                }
+                self.sym("}");
+                let op = *self.t.pick(&["=", "<="]);
+                self.sym(op);
+                self.expr(1);
+                self.sym(";");
+            }
+            10 => {
+                // streaming concatenation with an array range
+                self.tag("stream-with-range");
+                self.lvalue_simple();
+                self.sym("=");
+                self.sym("{");
+                let op = *self.t.pick(&["<<", ">>"]);
+                self.sym(op);
+                match self.t.below(3) {
+                    0 => {
+                        let ty = *self.t.pick(&["byte", "int", "shortint"]);
+                        self.kw(ty);
+                    }
+                    1 => {
+                        let c = *self.t.pick(&["8", "4", "16"]);
+                        self.num(c);
+                    }
+                    _ => {}
+                }
+                self.sym("{");
+                self.var_ref_ident_only();
+                self.kw("with");
+                self.sym("[");
+                self.small_const();
+                match self.t.below(4) {
+                    0 => {}
+                    1 => {
+                        self.sym(":");
+                        self.small_const();
+                    }
+                    2 => {
+                        self.sym("+:");
+                        self.small_const();
+                    }
+                    _ => {
+                        self.sym("-:");
+                        self.small_const();
+                    }
+                }
+                self.sym("]");
+                if self.t.chance(1, 3) {
+                    self.sym(",");
+                    self.var_ref_ident_only();
+                }
+                self.sym("}");
+                self.sym("}");
+                self.sym(";");
+            }
+            11 => {
+                // clocking_drive ::= clockvar_expression <= [ cycle_delay ] expression
+                self.tag("clocking-drive");
+                self.id("cb_drv");
+                self.sym(".");
+                self.id("sig_o");
+                if self.t.chance(1, 4) {
+                    self.sym("[");
+                    self.small_const();
+                    self.sym("]");
+                }
+                self.sym("<=");
+                let mut number_delay = false;
+                if self.t.flip() {
+                    self.sym("##");
+                    match self.t.below(3) {
+                        0 => {
+                            self.num("2");
+                            number_delay = true;
+                        }
+                        1 => self.var_ref_ident_only(),
+                        _ => {
+                            self.sym("(");
+                            self.expr(1);
+                            self.sym(")");
+                        }
+                    }
+                }
+                if number_delay {
+                    // "##2 'b1" is the cycle delay 2'b1: keep a based literal from following the count
+                    self.sym("(");
+                    self.expr(1);
+                    self.sym(")");
+                } else {
+                    self.expr(1);
+                }
+                self.sym(";");
+            }
             7 => {
                 // event_control ::= @ ps_or_hierarchical_sequence_identifier (package scope without parentheses)
                 self.tag("event-control-package-scope");
